@@ -4,7 +4,23 @@ import itertools
 from ..spec import Acc, Term, Einsum, Spec
 
 RANKS = ["M", "N", "K", "J", "P"]
-TNAMES = list("ABCDEFGHIQRSUVWXY")
+TNAMES = list("ABCDEFGHIQRSUVWXY") + ["A%d" % i for i in range(8)]
+
+
+ALT_RANKS = ["I", "H", "W", "S", "Q", "R", "X"]
+
+
+def pick_pool(rnd):
+    """Mostly the usual rank names; sometimes names that collide with tensor
+    names, end in I, or have two letters (never a two-letter name together
+    with its letters: level/flatten names would be ambiguous)."""
+    if rnd.random() < 0.75:
+        return RANKS
+    pool = rnd.sample(ALT_RANKS, 4) + rnd.sample(RANKS, 1)
+    if rnd.random() < 0.4:
+        two = rnd.choice(["HI", "NI", "WI"])
+        pool = [r for r in pool if r not in two] + [two]
+    return pool
 
 
 def _acc(name, ranks):
@@ -18,7 +34,7 @@ def gen_einsum(rnd, names=None, out_name="Z", ranks=None, max_ranks=4, max_terms
     non-output-only ranks (the compiler requires equal rank sets per term).
     force: optional stratum name."""
     names = iter(names or TNAMES)
-    pool = ranks or RANKS
+    pool = ranks or pick_pool(rnd)
     nr = rnd.randint(1, min(max_ranks, len(pool)))
     if force in ("union3", "take3"):
         nr = max(nr, 2)
@@ -55,10 +71,14 @@ def gen_einsum(rnd, names=None, out_name="Z", ranks=None, max_ranks=4, max_terms
     else:
         nterms = rnd.choice([1, 1, 1, 2, 2, 3][:max(1, 2 * max_terms)])
         nterms = min(nterms, max_terms)
+        if max_terms >= 3 and rnd.random() < 0.06:
+            nterms = 4
     decl = {}
     terms = []
     for t in range(nterms):
         nf = rnd.randint(1, max_factors)
+        if max_factors >= 3 and rnd.random() < 0.06:
+            nf = 4
         if force == "take3" and t == 0:
             nf = 3
         if force == "sumprod":
@@ -107,11 +127,17 @@ def gen_einsum(rnd, names=None, out_name="Z", ranks=None, max_ranks=4, max_terms
         else:
             fl = list(accs)
             if allow_scalar and rnd.random() < 0.2:
-                fl.insert(rnd.randrange(len(fl) + 1), "sc%d" % t)
+                # scalar names may repeat across terms (and, rarely, inside a term)
+                sc = "sc%d" % rnd.choice([0, 0, 1, t])
+                fl.insert(rnd.randrange(len(fl) + 1), sc)
+                if rnd.random() < 0.1:
+                    fl.insert(rnd.randrange(len(fl) + 1), sc)
                 info["strata"].append("scalar")
             terms.append(Term("times", fl))
     if nterms >= 3:
         info["strata"].append("union3")
+    if nterms >= 4 or any(len(t.tensors()) >= 4 for t in terms):
+        info["strata"].append("four-operands")
     if nterms >= 2 and any(len(t.tensors()) >= 2 for t in terms):
         info["strata"].append("sumprod")
     if not out_ranks:
